@@ -337,6 +337,7 @@ class Check:
         self.known_hits: Dict[str, int] = collections.OrderedDict()
         self.known = [k for k in load_known_findings() if k.get("property") == pid and k.get("status") == "open"]
         self._nontrivial = set()
+        self._per_what: Dict[str, int] = {}
         self.notes: List[str] = []
 
     # --- bookkeeping -------------------------------------------------------------------
@@ -374,7 +375,9 @@ class Check:
                 cls = k.get("class", "?")
                 self.known_hits[cls] = self.known_hits.get(cls, 0) + 1
                 return
-        if len(self.violations) < 50:
+        n_same = self._per_what.get(what, 0)
+        self._per_what[what] = n_same + 1
+        if n_same < 3 and len(self._per_what) <= 200:
             self.violations.append({"what": what, "features": features, "detail": detail})
         else:
             self.violations.append({"what": what})
